@@ -135,12 +135,12 @@ def r_direction(ctx):
             else:
                 continue
         asserts = [(l, g, t, ev) for l, g, t, ev in solver_stream(run)]
+        m += 1
         if len(asserts) != 1:
             ctx.violation("R-IMPROVE-LOOP", "SchedulingSolver._solve_optimize_incremental", "one improvement bound per round",
                           f"on [{describe_config(run)[:80]}] {len(asserts)} assertions in the loop", LOC)
             continue
         l, g, t, ev = asserts[0]
-        m += 1
         op = "<" if is_min else ">"
         from sa.decide import canon_atom, atom_key
         cur_want = ("mcall", ("idx", ("mcall", A(SELF, "_solver"), "model", (), ()), var), "as_long", (), ())
@@ -347,7 +347,56 @@ def r_opt_wiring(ctx):
     ctx.floor("R-OPT-WIRING", "initialize configurations", n, 12)
 
 
-C07_RULES = [r_direction, r_improve_loop, r_weighted, r_opt_wiring]
+def r_objective_handed(ctx):
+    """with the built-in optimiser (z3.Optimize) a declared objective only has an effect if it is handed to the handle with
+    maximize()/minimize(): on every configuration of create_objective with optimizer == 'optimize', for a single objective
+    and for several, both directions reach the handle, each with the target of the very objective whose kind is tested"""
+    where = "SchedulingSolver.create_objective"
+    runs = runs_of(ctx, Entry("method", cls="SchedulingSolver", name="create_objective",
+                              opaque=("build_equivalent_weighted_objective",)))
+    fails_closed(ctx, "R-OBJ-HANDED", runs)
+    multi = A(SELF, "_is_multi_objective_optimization_problem")
+    n = 0
+    for run in runs:
+        dec = dict(run.decisions)
+        if dec.get("self.optimizer == 'incremental'") is not False and dec.get("self.optimizer == 'optimize'") is not True:
+            continue
+        cfgs = describe_config(run)
+        evs = solver_calls(run, ("maximize", "minimize"))
+        for pol, label in ((norm(multi), "several objectives"), (norm(app("not", multi)), "a single objective")):
+            n += 1
+            got = {"maximize": [], "minimize": []}
+            for ev in evs:
+                gs = [norm(g) for g in ev.guards]
+                if pol not in gs:
+                    continue
+                args = ev.data["args"]
+                tgt = args[0] if args else None
+                if not (isinstance(tgt, tuple) and tgt[0] == "attr" and tgt[2] == "_target"):
+                    ctx.violation("R-OBJ-HANDED", where, "objective target handed to the optimiser",
+                                  f"on [{cfgs}] {ev.data['name']}() receives {show(norm(tgt))[:120] if tgt else 'nothing'}, not an objective's target",
+                                  srcline(ev.site))
+                    continue
+                obj = tgt[1]
+                want_kind = norm(eq(A(obj, "kind"), K(ev.data["name"])))
+                if want_kind in gs or norm(eq(K(ev.data["name"]), A(obj, "kind"))) in gs:
+                    got[ev.data["name"]].append(ev)
+                else:
+                    ctx.violation("R-OBJ-HANDED", where, "direction of the objective handed to the optimiser",
+                                  f"on [{cfgs}] {ev.data['name']}({show(norm(tgt))[:100]}) is not under the test "
+                                  f"`{show(norm(A(obj, 'kind')))[:80]} == '{ev.data['name']}'`", srcline(ev.site))
+            missing = [k for k, v in got.items() if not v]
+            if missing:
+                ctx.violation("R-OBJ-HANDED", where, f"objective handed to z3.Optimize ({label})",
+                              f"on [{cfgs}] with {label} no {' / '.join(m + '()' for m in missing)} call reaches the Optimize handle: "
+                              f"solve() then returns the first satisfying model, not an optimal one", LOC)
+            else:
+                ctx.ok("R-OBJ-HANDED", f"{where} [{cfgs}; {label}]",
+                       sample={"handed": sorted({show(norm(e.data['args'][0]))[:80] for v in got.values() for e in v})})
+    ctx.floor("R-OBJ-HANDED", "optimize configurations x objective multiplicity", n, 4)
+
+
+C07_RULES = [r_direction, r_improve_loop, r_weighted, r_opt_wiring, r_objective_handed]
 
 
 # ---------------------------------------------------------------------------
@@ -446,7 +495,7 @@ def r_chained_cmp(ctx):
         ctx.ok("R-CHAINED-CMP", f"no chained comparison over non-trivial operands in {n} comparisons (fixture matches)")
 
 
-C12_RULES = [r_block_clause, r_chained_cmp]
+C12_RULES = [r_block_clause, r_chained_cmp, lambda ctx: r_scoped_assert(ctx), lambda ctx: r_push_pop(ctx)]
 
 
 # ---------------------------------------------------------------------------
@@ -622,7 +671,50 @@ def r_model_typestate(ctx):
     ctx.floor("R-MODEL-TYPESTATE", "_model writers", n, 2)
 
 
-C13_RULES = [r_push_pop, r_init_once, r_solver_readonly, r_model_typestate]
+# methods whose solver assertions ARE the problem (or the user's request) and therefore stay for good
+PERMANENT_ASSERTERS = ("initialize", "append_z3_assertion", "create_objective", "build_equivalent_weighted_objective",
+                       "find_another_solution", "find_another_solution_for_variable")
+ASSERT_CALLS = ("self.append_z3_assertion", "_solver.add", "_solver.assert_and_track", "_solver.assert_exprs",
+                "_solver.from_string", "_solver.add_soft")
+
+
+def r_scoped_assert(ctx):
+    """answering methods (solve, the incremental optimiser, check_sat, build_solution, exports ...) may only assert inside a
+    pushed scope: every path from the method entry, and from any pop(), to an assertion site passes a push().  Together with
+    R-PUSH-POP (every scope is popped on every exit) nothing a solve asserts outlives the call: what later calls can
+    still find is never narrowed by an earlier answer."""
+    c = ctx.project.cls("SchedulingSolver")
+    n = 0
+    for name, fn in c.methods.items():
+        if name in PERMANENT_ASSERTERS or name == "__init__":
+            continue
+        g = C.CFG(fn)
+        sites = g.find(lambda x: any(C.has_call(x, a) for a in ASSERT_CALLS))
+        pushes = g.find(lambda x: C.has_call(x, "_solver.push"))
+        pops = g.find(lambda x: C.has_call(x, "_solver.pop"))
+        where = f"SchedulingSolver.{name}"
+        for s in sites:
+            n += 1
+            bad = g.path_avoiding(g.entry, s, lambda z: z in pushes)
+            origin = "the method entry"
+            if bad is None:
+                for q in pops:
+                    bad = g.path_avoiding(q, s, lambda z: z in pushes) if q is not s else None
+                    if bad is not None:
+                        origin = f"the pop() at line {q.lineno}"
+                        break
+            if bad is None:
+                ctx.ok("R-SCOPED-ASSERT", f"{where}: `{s.src()[:60]}` only inside a pushed scope")
+            else:
+                ctx.violation("R-SCOPED-ASSERT", where, "assertion outside any pushed scope",
+                              f"`{s.src()[:90]}` is reachable from {origin} without a push() "
+                              f"(path {' -> '.join(str(x.lineno) for x in bad if x.lineno)}): the assertion stays in the solver after "
+                              f"the call and removes valid schedules from every later solve / find_another_solution",
+                              srcline(s))
+    ctx.floor("R-SCOPED-ASSERT", "assertion sites in answering methods", n, 2)
+
+
+C13_RULES = [r_push_pop, r_scoped_assert, r_init_once, r_solver_readonly, r_model_typestate, r_block_clause]
 
 
 # ---------------------------------------------------------------------------
@@ -756,7 +848,96 @@ def r_option_table(ctx):
 
 
 # the two optimisers can only agree on the optimum if the incremental loop's direction table and typestate hold
-C15_RULES = [r_option_noninterference, r_option_table, r_opt_wiring, r_direction, r_improve_loop, r_weighted]
+C15_RULES = [r_option_noninterference, r_option_table, r_opt_wiring, r_direction, r_improve_loop, r_weighted, r_objective_handed]
+
+
+def _core_listing_complete(ctx, fn, core_names):
+    """R-CORE-COMPLETE (reader side): every label of the unsat core that is found in the label map puts its constraint on the
+    reported list - the only test allowed to skip the append is a 'not already listed' test - and the reported list is the one
+    that is printed.  Dropping a core member from the listing makes the listed set satisfiable together with the basic rules."""
+    where = "SchedulingSolver.solve"
+    g = C.CFG(fn)
+    heads = [h for h in g.find(lambda x: x.kind == "forhead")
+             if ast.unparse(h.ast.iter) in core_names or ast.unparse(h.ast.iter) == "self._solver.unsat_core()"]
+    if not heads:
+        raise P.AnalysisError("R-CORE-COMPLETE: anchor vanished: loop over the unsat core in solve()")
+    h = heads[0]
+    body_ids = {id(x) for x in ast.walk(h.ast)}
+    in_loop = lambda nd: nd.ast is not None and id(nd.ast) in body_ids and nd is not h
+    tests = [t for t in g.find(lambda x: x.kind == "test") if in_loop(t)
+             and ast.unparse(t.ast.test).replace(" ", "").endswith("inself._map_boolrefs_to_constraints")
+             and "notin" not in ast.unparse(t.ast.test).replace(" ", "")]
+    if not tests:
+        return      # the unguarded lookup is reported by the reader clause of R-CORE-MAP
+    t = tests[0]
+    # names bound to problem.constraints[...] inside the loop
+    holders = {"self.problem.constraints"}
+    for nd in g.nodes:
+        if in_loop(nd) and nd.kind == "stmt" and isinstance(nd.ast, ast.Assign) and isinstance(nd.ast.value, ast.Subscript) \
+                and ast.unparse(nd.ast.value.value) == "self.problem.constraints":
+            holders |= {tg.id for tg in nd.ast.targets if isinstance(tg, ast.Name)}
+    appends = []
+    lists = set()
+    for nd in g.nodes:
+        if not in_loop(nd) or nd.kind != "stmt":
+            continue
+        for c in C.calls_in(nd):
+            if isinstance(c.func, ast.Attribute) and c.func.attr == "append" and isinstance(c.func.value, ast.Name) and c.args:
+                a = c.args[0]
+                src = ast.unparse(a)
+                if src in holders or (isinstance(a, ast.Subscript) and ast.unparse(a.value) == "self.problem.constraints"):
+                    appends.append(nd)
+                    lists.add(c.func.value.id)
+    if not appends or len(lists) != 1:
+        ctx.violation("R-CORE-COMPLETE", where, "core member put on the reported list",
+                      f"no single list receives problem.constraints[...] for the labels of the core (lists: {sorted(lists)})", LOC)
+        return
+    lst = next(iter(lists))
+
+    def dedup_test(nd):
+        if nd.kind != "test":
+            return False
+        tt = nd.ast.test
+        return isinstance(tt, ast.Compare) and len(tt.ops) == 1 and isinstance(tt.ops[0], (ast.NotIn, ast.In)) \
+            and ast.unparse(tt.comparators[0]) == lst
+
+    t_succ = [m for m, lab in t.succ if lab == "T"]
+    path = None
+    for m in t_succ:
+        if m in appends:
+            continue
+        path = g.path_avoiding(m, h, lambda z: z in appends,
+                               edge_ok=lambda a, b, lab: not dedup_test(a) or
+                               (lab == "T" if isinstance(a.ast.test.ops[0], ast.NotIn) else lab == "F"))
+        if path is not None:
+            path = [m] + path if path[0] is not m else path
+            break
+    if path is not None:
+        ctx.violation("R-CORE-COMPLETE", where, "core member dropped from the reported conflict",
+                      f"a label of the unsat core that is found in the label map does not always put its constraint on `{lst}` "
+                      f"(path {' -> '.join(str(x.lineno) for x in path if x.lineno)}; only a 'not already listed' test may skip the "
+                      f"append): the constraints that are listed can then be satisfiable together", srcline(t))
+    else:
+        ctx.ok("R-CORE-COMPLETE", f"{where}: every mapped core label puts its constraint on `{lst}`")
+    # the list is what is reported: a later loop over it prints each element, and nothing removes from it
+    reporters = [x for x in g.find(lambda x: x.kind == "forhead") if ast.unparse(x.ast.iter) == lst and isinstance(x.ast.target, ast.Name)]
+    shown = False
+    for r in reporters:
+        v = r.ast.target.id
+        for nd in ast.walk(r.ast):
+            if isinstance(nd, ast.Call) and ast.unparse(nd.func) == "print" and any(
+                    isinstance(a, ast.Name) and a.id == v or v in {n.id for n in ast.walk(a) if isinstance(n, ast.Name)} for a in nd.args):
+                shown = True
+    removers = [nd for nd in g.nodes if nd.ast is not None and nd.kind == "stmt" and any(
+        isinstance(c.func, ast.Attribute) and c.func.attr in ("remove", "pop", "clear") and ast.unparse(c.func.value) == lst
+        for c in C.calls_in(nd))]
+    rebinds = [nd for nd in g.nodes if nd.kind == "stmt" and lst in C.assigned_names(nd)]
+    if shown and not removers and len(rebinds) == 1:
+        ctx.ok("R-CORE-COMPLETE", f"{where}: `{lst}` is printed element by element and never shrunk", nontrivial=False)
+    else:
+        ctx.violation("R-CORE-COMPLETE", where, "reported list is the collected list",
+                      f"`{lst}`: printed element by element: {shown}; shrinking calls: {[x.lineno for x in removers]}; "
+                      f"bindings: {[x.lineno for x in rebinds]}", LOC)
 
 
 def r_core_map(ctx):
@@ -860,6 +1041,7 @@ def r_core_map(ctx):
                     ok_reader = True
                 else:
                     why = f"lookup of {label} is not guarded by `{label} in self._map_boolrefs_to_constraints` or does not use the core element"
+    _core_listing_complete(ctx, fn, core_names)
     if ok_reader:
         ctx.ok("R-CORE-MAP", "solve(): each listed conflict is problem.constraints[map[label]] for a label of the unsat core found in the map")
     else:
